@@ -22,14 +22,14 @@ RULE = ('per (alpha, ndf): every bin (v1, e1, v2, e2) over the value and error a
 ASSUMPTIONS = ['reference tail probabilities from scipy.special.ndtr / stdtr (the code uses scipy.stats ppf/sf)',
                'verdicts within 1e-9 (relative) of the decision boundary are not compared (counted as boundary_skipped)',
                'small-scope: <= 4 cells per array, <= 3 compared datasets']
-LEVEL_TEXT = ('Every combination of 7-10 values x 5-6 errors on both sides (1225-3600 bins) x 3-5 levels x 4-5 degrees of freedom is '
+LEVEL_TEXT = ('Every combination of 9-12 values x 5-6 errors on both sides (2025-5184 bins) x 3-5 levels x 4-5 degrees of freedom is '
               'evaluated through the array path and the scalar path of the real TestStudent and compared bin by bin (t, p-value, oracle, '
               'p-value decision) with a scalar reference; verdict aggregation is checked on every class assignment to <= 4 cells and <= 3 '
               'datasets; symmetry, rescaling and monotonicity are checked on every pair of enumerated bins. Exhaustive over this alphabet, '
               'which holds one representative per branch of student_test (0/0, NaN/NaN, one-sided NaN, infinities, zero errors).')
 LEVEL_NOTE = 'scipy.special as independent source of the tail probabilities; guard band at the decision boundary.'
 
-VALS_Q = [-2.0, 0.0, 1.0, 1.3, 4.0, float('nan'), float('inf')]
+VALS_Q = [-2.0, 0.0, 1.0, 1.000001, 3e-12, 1.3, 4.0, float('nan'), float('inf')]    # incl. two close values and a tiny one
 VALS_T = VALS_Q + [float('-inf'), 1e300, 5e-324]
 ERRS_Q = [0.0, 0.1, 1.0, float('nan'), float('inf')]
 ERRS_T = ERRS_Q + [1e-300]
